@@ -33,6 +33,8 @@ def run(tier):
         rep = replay(res)
         absorb_replay(chk, rep, "replay of TLC behaviour")
     require_cases(chk, chk.distinct, kinds, OPS, what="C02 arithmetic")
+    # implementation -> spec: random exact programs recorded on the real crate, validated by TLC
+    trace_check(chk, kinds, 1500 if tier == "quick" else 20000, "C02 trace validation")
     return chk.finish(rule="one case = (concrete type, operation, syntactic form) replayed bit-exactly; behaviours are "
                            "load;load;op programs enumerated by TLC over generic operand values (all presence patterns "
                            "of optional parts), expected results computed by the B-model over exact rationals",
